@@ -81,7 +81,7 @@ func genC04(seed uint64, run int, tier string) Scenario {
 	}
 	qn := 0
 	for i := 0; i < nops; i++ {
-		op := OpSpec{Kind: pick(r, "acquire", "acquire", "netsend", "netsendmulti", "netconfigs", "netconfig", "netinteractive", "acquire-unknown")}
+		op := OpSpec{Kind: pick(r, "acquire", "acquire", "netsend", "netsendmulti", "netconfigs", "netconfig", "netinteractive", "acquire-unknown", "netconfigsfile", "netsendfile")}
 		switch op.Kind {
 		case "acquire":
 			op.Target = tree.Names[r.IntN(len(tree.Names))]
@@ -93,7 +93,7 @@ func genC04(seed uint64, run int, tier string) Scenario {
 			toks, lines := g.out(2)
 			def.Cmds[c] = &peer.Reply{Out: toks}
 			op.Cmd, op.Lines = c, [][]string{lines}
-		case "netsendmulti":
+		case "netsendmulti", "netsendfile":
 			for j := between(r, 1, 3); j > 0; j-- {
 				c := g.cmd("show")
 				toks, lines := g.out(2)
@@ -101,7 +101,7 @@ func genC04(seed uint64, run int, tier string) Scenario {
 				op.Cmds = append(op.Cmds, c)
 				op.Lines = append(op.Lines, lines)
 			}
-		case "netconfigs", "netconfig":
+		case "netconfigs", "netconfig", "netconfigsfile":
 			target := cfg
 			if r.IntN(4) == 0 {
 				op.Priv = tree.Names[r.IntN(len(tree.Names))]
@@ -238,9 +238,9 @@ func runC04(env *Env, s Scenario) {
 			target = op.Target
 		case "netsend":
 			own = []string{op.Cmd}
-		case "netsendmulti":
+		case "netsendmulti", "netsendfile":
 			own = op.Cmds
-		case "netconfigs", "netconfig":
+		case "netconfigs", "netconfig", "netconfigsfile":
 			target = "configuration"
 			if op.Priv != "" {
 				target = op.Priv
